@@ -142,8 +142,10 @@ def _run(ka, wa, kb, wb, kc, wc, f1, m1, f2, m2, f3, fan, role, is_port):
          pre=[f"0 <= ka < {KINDS}", f"0 <= kb < {KINDS}", f"0 <= kc < {KINDS}", "1 <= wa", "1 <= wb", "1 <= wc", "0 <= role <= 2"],
          tiers={"quick": {"timeout": 170, "pre": ["wa <= 2 and wb == 1 and wc == 1", "kb == kc or kb == 0", "m1 == False or f1 == False", "m2 == False"],
                           "parts": parts_product(parts_over("ka", range(KINDS)), [("port", "is_port == True"), ("int", "is_port == False and role == 0 and f1 == False and f2 == False and f3 == False")])},
-                "thorough": {"timeout": 1500, "pre": ["wa <= 3 and wb <= 2 and wc <= 3"],
-                             "parts": parts_product(parts_over("ka", range(KINDS)), parts_over("kb", range(KINDS)), [("port", "is_port == True"), ("int", "is_port == False and role == 0")])}},
+                "thorough": {"timeout": 600, "pre": ["wa <= 3 and wb <= 2 and wc <= 3"],
+                             "parts": parts_product(parts_over("ka", range(KINDS)), parts_over("kb", range(KINDS)), parts_over("kc", range(KINDS)),
+                                                    [("port_r0", "is_port == True and role == 0"), ("port_r1", "is_port == True and role == 1"), ("port_r2", "is_port == True and role == 2"),
+                                                     ("int", "is_port == False and role == 0")])}},
          sample=(4, 2, 0, 1, 1, 2, True, False, True, False, True, True, 1, True),
          bounds="bundle tree of depth 3 (leaf + sub-bundle per level), optional fan-out 2 at the top; 7 leaf kinds per level (input, output, inout, undirected port, 2 role-directed, plain); leaf widths <= 2 (quick) / <= 3; flips at all three levels by constructor flag and by flipped(); role of the port instance in {none, Host, Device}; port vs internal instantiation; parent connecting its own bundle to the child's bundle port",
          generalises="flip flags (parity), leaf kinds, widths, role", outside="deeper trees, fan-out 3; roles on nested sub-instances")
